@@ -472,19 +472,23 @@ def obligations():
     for (a, b) in ((5, 7), (0, 7), (3, 5)):
         obs.append(Ob('h_history', {'kind': 'daemon', 'n': 2, 'stubborn': True, 'pin': {'s0': a, 's1': b}}, tiers=('quick',), timeout=900,
                       path_timeout=200))
-    obs += split(Ob('h_history', {'kind': 'daemon', 'n': 2, 'stubborn': True}, tiers=('thorough',), timeout=1800, path_timeout=200, twins=['stubborn_stopped']),
-                 s0=safe, s1=safe)
+    obs += sample(Ob('h_history', {'kind': 'daemon', 'n': 2, 'stubborn': True}, tiers=('thorough',), timeout=900, path_timeout=200), 32, seed=93,
+                  s0=safe, s1=safe)
+    obs.append(Ob('h_history', {'kind': 'daemon', 'n': 2, 'stubborn': True}, tiers=('thorough',), timeout=600, path_timeout=200,
+                  twins=['stubborn_stopped'], main=False))
     obs.append(Ob('h_history', {'kind': 'daemon', 'n': 1, 'stubborn': True, 'only_f12': True, 'pin': {'s0': 4}}, expect='counterexample',
                   finding='F12', timeout=600, path_timeout=200))
     for (a, b) in ((5, 7), (5, 6), (3, 7)):
         obs.append(Ob('h_history', {'kind': 'daemon', 'n': 2, 'slow_exit': True, 'pin': {'s0': a, 's1': b}}, tiers=('quick',), timeout=900,
                       path_timeout=200))
-    obs += split(Ob('h_history', {'kind': 'daemon', 'n': 2, 'slow_exit': True}, tiers=('thorough',), timeout=1800, path_timeout=200), s0=safe, s1=safe)
+    obs += sample(Ob('h_history', {'kind': 'daemon', 'n': 2, 'slow_exit': True}, tiers=('thorough',), timeout=900, path_timeout=200), 32, seed=94,
+                  s0=safe, s1=safe)
     for fl, pairs in (('self_exit', ((7, 2), (0, 1), (5, 6))), ('crash', ((7, 7), (2, 1)))):
         for (a, b) in pairs:
             obs.append(Ob('h_history', {'kind': 'daemon', 'n': 2, 'flavour': fl, 'pin': {'s0': a, 's1': b}}, tiers=('quick',), timeout=900,
                           path_timeout=200))
-        obs += split(Ob('h_history', {'kind': 'daemon', 'n': 2, 'flavour': fl}, tiers=('thorough',), timeout=1800, path_timeout=200), s0=safe, s1=safe)
+        obs += sample(Ob('h_history', {'kind': 'daemon', 'n': 2, 'flavour': fl}, tiers=('thorough',), timeout=900, path_timeout=200), 24, seed=95,
+                      s0=safe, s1=safe)
     obs.append(Ob('h_history', {'kind': 'daemon', 'n': 2, 'flavour': 'self_exit', 'pin': {'s0': 7, 's1': 2}}, tiers=('quick', 'thorough'), timeout=600,
                   path_timeout=200, twins=['exited_on_its_own'], main=False))
     # a timer whose slow tick is in progress when the operator pauses and resumes at once: never two instances
@@ -496,9 +500,9 @@ def obligations():
         for a in (3, 4, 5, 7):
             obs.append(Ob('h_history', {'kind': 'timer', 'n': 1, 'timer_kw': kw, 'gap_max': 8, 'pin': {'s0': a}}, tiers=('quick',),
                           timeout=900, path_timeout=200))
-    obs += split(Ob('h_history', {'kind': 'daemon', 'n': 2}, tiers=('thorough',), timeout=1800, path_timeout=200), s0=safe, s1=safe)
-    obs += sample(Ob('h_history', {'kind': 'daemon', 'n': 3}, tiers=('thorough',), timeout=1800, path_timeout=200), 32, seed=91, s0=safe, s1=safe)
+    obs += split(Ob('h_history', {'kind': 'daemon', 'n': 2}, tiers=('thorough',), timeout=900, path_timeout=200), s0=safe, s1=safe)
+    obs += sample(Ob('h_history', {'kind': 'daemon', 'n': 3}, tiers=('thorough',), timeout=900, path_timeout=200), 12, seed=91, s0=safe, s1=safe)
     for kw in ({'interval': 3}, {'idle': 4}, {'interval': 3, 'idle': 4}):
-        obs += sample(Ob('h_history', {'kind': 'timer', 'n': 2, 'timer_kw': kw, 'gap_max': 12}, tiers=('thorough',), timeout=1800, path_timeout=200),
-                      12, seed=92 + len(kw) + kw.get('interval', 0), s0=safe, s1=safe)
+        obs += sample(Ob('h_history', {'kind': 'timer', 'n': 2, 'timer_kw': kw, 'gap_max': 12}, tiers=('thorough',), timeout=900, path_timeout=200),
+                      5, seed=92 + len(kw) + kw.get('interval', 0), s0=safe, s1=safe)
     return obs
